@@ -165,6 +165,13 @@ pub fn undo_group(p: &mut Plain, pre: &Plain, accounts: &[(Address, Option<Accou
         }
         let e = p.storage.entry(s.address).or_default();
         for (k, r) in &s.storage_revert {
+            // `RevertToSlot::Destroyed` under a wiped revert names no value: "previous values
+            // can be found in database or it can be zero" (reverts.rs) - the slot reads as
+            // its pre-bundle value, which the wipe handling above has just restored. Without
+            // the wipe flag it means the slot did not exist before (zero).
+            if s.wiped && matches!(r, revm::db::RevertToSlot::Destroyed) {
+                continue;
+            }
             let v = r.to_previous_value();
             if v.is_zero() {
                 e.remove(k);
@@ -245,6 +252,7 @@ impl Engine for StateSim {
     fn generate(&self, rng: &mut Rng) -> StateCase {
         let mut k = WorldKnobs::new(InspKind::None);
         k.stacks = vec![StackKind::StateBundle];
+        k.lifecycle_pct = *rng.pick(&[0u64, 30, 60, 90]);
         k.max_contracts = 4;
         k.tune = |c: &mut GenCtx, r: &mut Rng| {
             c.w_storage = 18;
@@ -688,7 +696,14 @@ pub fn run_state_case(case: &StateCase, stats: &mut Stats) -> Vec<Violation> {
             let flushed = post_yes.to_disk(salt, false).unwrap_or_else(|_| durable.clone());
             last_segment = Some((seg_start, k + 1, durable.clone(), bundle));
             durable = flushed;
-            sys.bottom.with_disk(|d| *d = durable.clone());
+            // After a flush the next bundle is built by a *fresh* State over the flushed disk
+            // (what a node does per batch). Re-using the State after take_bundle is outside
+            // the property: its cache keeps statuses (Destroyed, InMemoryChange, ...) that
+            // are relative to the database it was built on, not to the flushed one, so the
+            // next bundle would, for example, wipe the storage of an account that was
+            // destroyed and re-created before the flush (the code's own TODO on take_bundle).
+            drop(sys);
+            sys = new_state_sys(w, durable.clone(), None);
             seg_start = k + 1;
         }
     }
